@@ -1,8 +1,9 @@
 (** C24 — Hierarchical routes are composed correctly.
     Only statements; proofs live in SGV.Routing.GlobalProofs.  Model: SGV.Routing.Global (get_global_route_with_netzones,
-    find_common_ancestors, get_interzone_route) over abstract local routes [local zone src dst]; bypass routes and the
-    Vivaldi coordinate term are not modelled. *)
-From SGV Require Import Base.Tactics Routing.Global Routing.GlobalProofs.
+    find_common_ancestors, get_interzone_route) over abstract local routes [local zone src dst], and SGV.Routing.Bypass
+    (get_bypass_route and the recursion through the bypass gateways) over abstract bypass tables [bp zone key1 key2];
+    the Vivaldi coordinate term is not modelled. *)
+From SGV Require Import Base.Tactics Routing.Global Routing.GlobalProofs Routing.Bypass Routing.BypassProofs.
 Local Open Scope Z_scope.
 
 (* for every zone tree, every assignment of gateways and every family of local routes: the route the code computes is
@@ -46,6 +47,92 @@ Theorem C24_pinned_refuted :
   wit_route true = Some ([1; 20; 10; 100; 200; 3], 334) /\ wit_route false = Some ([1; 10; 20; 100; 200; 3], 334).
 Proof. exact pinned_refuted. Qed.
 Print Assumptions C24_pinned_refuted.
+
+(* ------------------------------------------------------------------------------------------------ bypass routes *)
+
+(* which bypass is used.  [ps]/[pd] are the chains of zones from each endpoint up to (excluding, unless the endpoint
+   sits directly in it) the common ancestor [this], innermost first, of ANY two lengths; a bypass is [declared] for the
+   index pair (i, j) when both indices are inside the chains and this's table has the key {ps[i], pd[j]}.  The search
+   returns the declared pair of least [rank]: smallest max(i, j) first; for equal max = m the order is
+   (0,m) (m,0) (1,m) (m,1) ... (m,m) *)
+Theorem C24_bypass_winner : forall znp bp this ps pd k1 k2 b,
+  bp_search znp bp this ps pd = Some (k1, k2, b) ->
+  exists i j, declared znp bp this ps pd i j /\
+    k1 = znp (nth i ps (-1)) /\ k2 = znp (nth j pd (-1)) /\ b = bp this k1 k2 /\
+    forall i' j', declared znp bp this ps pd i' j' -> (i', j') = (i, j) \/ rank_lt (i, j) (i', j').
+Proof. exact bp_search_winner. Qed.
+Print Assumptions C24_bypass_winner.
+
+(* a bypass declared between two zones of the chains is never missed, whatever the two depths *)
+Theorem C24_bypass_never_missed : forall znp bp this ps pd,
+  bp_search znp bp this ps pd = None <-> forall i j, ~ declared znp bp this ps pd i j.
+Proof. exact bp_search_none. Qed.
+Print Assumptions C24_bypass_never_missed.
+
+(* the route with bypass routes, soundness: whatever the model of get_global_route_with_netzones returns (with any
+   fuel: the result is not a fuel artefact) satisfies the fuel-free declarative [route_spec]: when no bypass applies in
+   the common ancestor it is the composition of C24_composition; otherwise, for the winning bypass (k1, k2, b) of
+   [find_bypass] (host-level key {src, dst} when both endpoints sit in the common ancestor, else C24_bypass_winner),
+   it is  route(src -> b's source gateway) ++ b's links ++ route(b's destination gateway -> dst), each end empty
+   when the endpoint is the key itself, and both ends routes in the same sense (they may use bypasses further down) *)
+Theorem C24_bypass_composition : forall parent znp zgw enz is_zone local depth bp prepends fuel src dst s,
+  groute parent znp zgw enz is_zone local depth bp prepends false fuel src dst nilseg = Some s ->
+  route_spec parent znp zgw enz is_zone local depth bp src dst s.
+Proof. exact groute_sound. Qed.
+Print Assumptions C24_bypass_composition.
+
+(* completeness: every declarative route is the one computed, for every sufficiently large fuel *)
+Theorem C24_bypass_composition_complete : forall parent znp zgw enz is_zone local depth bp prepends src dst s,
+  route_spec parent znp zgw enz is_zone local depth bp src dst s ->
+  exists fuel, forall fuel', (fuel <= fuel')%nat ->
+    groute parent znp zgw enz is_zone local depth bp prepends false fuel' src dst nilseg = Some s.
+Proof. exact groute_complete. Qed.
+Print Assumptions C24_bypass_composition_complete.
+
+(* without declared bypass routes the route is the one of C24_composition *)
+Theorem C24_bypass_none_declared : forall parent znp zgw enz is_zone local depth bp prepends fuel src dst,
+  (forall z a b, lr_ok (bp z a b) = false) ->
+  groute parent znp zgw enz is_zone local depth bp prepends false (S fuel) src dst nilseg =
+  global_route parent znp zgw enz is_zone local depth false src dst.
+Proof. exact groute_no_bypass. Qed.
+Print Assumptions C24_bypass_none_declared.
+
+(* latency = sum of the links' latencies also through bypass routes *)
+Theorem C24_bypass_latency_sum : forall parent znp zgw enz is_zone local depth bp prepends lat,
+  (forall z a b, lr_ok (local z a b) = true -> lr_lat (local z a b) = lat_sum lat (lr_links (local z a b))) ->
+  (forall z a b, lr_ok (bp z a b) = true -> lr_lat (bp z a b) = lat_sum lat (lr_links (bp z a b))) ->
+  forall fuel src dst ls l,
+  groute parent znp zgw enz is_zone local depth bp prepends false fuel src dst nilseg = Some (ls, l) -> l = lat_sum lat ls.
+Proof. exact groute_latency_sum. Qed.
+Print Assumptions C24_bypass_latency_sum.
+
+(* endpoints at unequal depths (hA1 two zones below T, hB one): the bypass A -> B, index pair (1, 0), is used; without it
+   the declared route.  The code as pinned handed the links found so far to the local route that completes the bypass:
+   a Dijkstra zone put its links in front (reproduced on the real code and repaired) *)
+Theorem C24_bypass_pinned_refuted :
+  bw_route bw_bypass false = Some ([1; 2; 20; 3], 26) /\
+  bw_route [] false = Some ([1; 2; 10; 3], 16) /\
+  bw_route bw_bypass true = Some ([3; 1; 2; 20], 26).
+Proof. exact bypass_witness. Qed.
+Print Assumptions C24_bypass_pinned_refuted.
+
+Example C24_bypass_nonvacuous :
+  bp_search bw_znp (lookup bw_bypass) 0 [2; 1] [3] = Some (5, 7, mklr true [20] 20 2 4) /\
+  declared bw_znp (lookup bw_bypass) 0 [2; 1] [3] 1 0 /\
+  route_spec bw_parent bw_znp (fun _ => -1) bw_enz (fun p => 5 <=? p) (lookup bw_local) 5 (lookup bw_bypass) 0 3
+             ([1; 2; 20; 3], 26).
+Proof.
+  split; [vm_compute; reflexivity|]. split; [vm_compute; repeat split; lia|].
+  apply (groute_sound _ _ _ _ _ _ _ _ (fun z => z =? 3) 6). vm_compute. reflexivity.
+Qed.
+Example C24_bypass_latency_nonvacuous :
+  let lat := fun x => x in
+  (forall z a b, lr_ok (lookup bw_local z a b) = true -> lr_lat (lookup bw_local z a b) = lat_sum lat (lr_links (lookup bw_local z a b))) /\
+  (forall z a b, lr_ok (lookup bw_bypass z a b) = true -> lr_lat (lookup bw_bypass z a b) = lat_sum lat (lr_links (lookup bw_bypass z a b))).
+Proof.
+  split; intros z a b; unfold bw_local, bw_bypass; simpl;
+    repeat (match goal with |- context [if ?c then _ else _] => destruct c end; simpl; try discriminate; try reflexivity).
+Qed.
 
 Example C24_nonvacuous :
   global_spec wit_parent wit_znp (fun _ => -1) wit_enz (fun p => 5 <=? p) (lookup wit_local) 5 0 3
